@@ -100,7 +100,8 @@ def _run_E(case: Dict[str, Any], res: core.Res) -> None:
     exprs, anns = _e_pool()
     exprs = exprs[case['lo']:case['hi']] if case['what'] == 'expr' else []
     anns = anns[case['lo']:case['hi']] if case['what'] == 'ann' else []
-    lines = ['import typing as t', 'import typing, typing_extensions, typing_extensions as te', 'from typing import *']
+    # (Root is a class of this very module: a base written Root[...] names a documented class and keeps its subscript)
+    lines = ['import typing as t', 'import typing, typing_extensions, typing_extensions as te', 'from typing import *', 'class Root:', '    pass']
     items: List[Tuple[str, str, str, str]] = []      # (position, object name, source expression, 'expr'|'ann')
     for i, e in enumerate(exprs):
         if _roundtrips(e, ('inline',)) is not True or '\n' in e or 'yield' in e or 'await' in e:
